@@ -124,3 +124,29 @@ func Head(n int) string {
 func (t *Thing) Ymd() string    { return fmt.Sprintf("%04d-%02d-%02d", t.n, 1, 1) }
 func (t *Thing) YmdHms() string { return fmt.Sprintf("%v %02d:%02d:%02d", t.Ymd(), 0, 0, 0) }
 func Mixed(a, b *Thing) bool    { return strings.Compare(a.Ymd(), b.YmdHms()) < 0 }
+
+// R09.1, once-initialised variables: lazyTab is built under lazyOnce and every use follows the Do
+// (accepted); eagerTab has the same builder shape but one reader skips the Do (reported).
+var lazyOnce sync.Once
+var lazyTab []int
+
+func Lazy(i int) int {
+	lazyOnce.Do(func() {
+		lazyTab = []int{1, 2, 3}
+	})
+	return lazyTab[i%3]
+}
+
+var eagerOnce sync.Once
+var eagerTab []int
+
+func Eager(i int) int {
+	eagerOnce.Do(func() {
+		eagerTab = []int{1, 2, 3}
+	})
+	return eagerTab[i%3]
+}
+
+func EagerPeek() int {
+	return len(eagerTab)
+}
